@@ -1,6 +1,7 @@
 package main
 
 import (
+	"time"
 	"strconv"
 	"syscall"
 	"fmt"
@@ -851,6 +852,14 @@ func c15OddNames(msize uint32, dotu bool) Scenario {
 		var want []string
 		for _, n := range []string{"...", "....", ".....", strings.Repeat(".", 255), ".a", "..b", "a.", "a..", " ", "  ", "a b", "\\", "*", "?", "~", "-", "#", "%00", "\x7f", "\xff\xfe"} {
 			if os.WriteFile(filepath.Join(root, "dir", n), []byte("x"), 0o644) == nil {
+				want = append(want, n)
+			}
+		}
+		// entries whose modification time 32 bits of seconds cannot carry are entries all the same
+		for i, t := range []time.Time{time.Unix(-315619200, 0), time.Unix(1<<32+5, 0), time.Unix(-1, 0)} {
+			n := fmt.Sprintf("odd-mtime-%d", i)
+			if os.WriteFile(filepath.Join(root, "dir", n), []byte("x"), 0o644) == nil {
+				os.Chtimes(filepath.Join(root, "dir", n), t, t)
 				want = append(want, n)
 			}
 		}
